@@ -71,6 +71,24 @@ def mk_push_pop(iset, sym_mask, pattern, arch=7):
     return fn
 
 
+SPLIT_BITS = {'LO8P': ('r0', 'r1'), 'LO8': ('r0', 'r1'), 'ALL8': ('r0', 'r1'), 'ALL9': ('r0', 'r1'), 'HI8': ('r8', 'r9'),
+              'LO': ('r0',), 'HI': ('r12',)}
+
+
+def split_window(label, opts):
+    """case split of a wide window on one or two of its list bits (the cases together are the whole window and run
+    in parallel)"""
+    bits_ = [b for b in SPLIT_BITS.get(label, ()) if b not in (opts.get('fix') or {})]
+    from spec.isa import ISA
+    have = {n for k, n, w, v in ISA[opts['enc']].items if k == 'f'}
+    bits_ = [b for b in bits_ if b in have]
+    cases = [('', opts)]
+    for b in bits_:
+        cases = [('%s/%s=%d' % (suf, b, v), dict(o, fix=dict(o.get('fix') or {}, **{b: v}))) for suf, o in cases
+                 for v in (0, 1)]
+    return cases
+
+
 def units(tier, seed=0):
     from spec import isa_blk
     step.load_tables(TABLES)
@@ -86,7 +104,9 @@ def units(tier, seed=0):
                     label = uname.rsplit('/', 1)[1]
                     if tier == 'quick' and label not in QUICK_LABELS:
                         continue
-                    us.append(UnitSpec(uname, 'vf.step', 'mk_step', opts, max_seconds=2400, weight=3))
+                    for suf, o2 in split_window(label, opts):
+                        us.append(UnitSpec(uname + suf, 'vf.step', 'mk_step', o2, max_seconds=2400, weight=3,
+                                           allow_vacuous=bool(suf)))
     pp = (('A', 0x000F, 0x0000), ('A', 0x5000, 0x0003), ('T16', 0x0F, 0x20)) if tier == 'quick' else \
         (('A', 0x003F, 0x0000), ('A', 0x5F00, 0x0001), ('T16', 0x3F, 0x80), ('T16', 0xC3, 0x04))
     for iset, sym, pat in pp:
